@@ -12,10 +12,8 @@ REQUIRED_THEOREMS = ['OpusProps.C20.' + t for t in (
     'dtx_first_decision', 'dtx_machine_run_bound', 'dtx_machine_refresh', 'dtx_machine_resume',
     'silk_onset', 'silk_run_bound', 'silk_refresh_resume',
     'dtx_onset', 'dtx_run_bound', 'dtx_detector_switch_no_dtx', 'dtx_resume', 'dtx_resume_counter', 'dtx_resume_silk',
-    'in_dtx_on_dtx_packets', 'dtx_off_no_tiny')]
-UNPROVED = [
-    'range lemma: nb_no_activity_ms_Q1 and the SILK counters are modelled as unbounded naturals; the theorems bound them by '
-    '1200 resp. 30 on every path, so the C int never overflows, but this corollary is not stated as a theorem.']
+    'in_dtx_on_dtx_packets', 'counters_in_range', 'dtx_off_no_tiny')]
+UNPROVED = []
 RULE = ('seeded generation of whole encoder runs (Fs x channels x application x complexity 0..10 x VBR/CVBR/CBR x bitrate '
         'classes incl. auto/max/near the low-budget boundary x output buffer x all nine frame durations x DTX on/off x FEC x '
         'signal type x forced channels x max bandwidth x int16/float API x aligned/unaligned schedules of 2..7 speech/gap '
@@ -40,11 +38,19 @@ NOT_COVERED = [
     'the packet-length <= 1 => PLC/CNG step is part of the C01/C09 decoder skeleton',
     'fixed-point build (silk/fixed/encode_frame_FIX.c has the same machine; complexity >= 10 threshold) is not built here']
 ASSUMPTIONS = [
-    'oracle-shape contract OpusModel.Dtx.oracleOk (main silk_Encode call has prefillFlag 0 and 1..3 SILK frames of <= 20 ms, '
-    'at most one prefill call before it; st->mode set once the frame loop is reached; an invalid analysis result at call '
-    'level implies invalid per-frame results) - monitored on every call of the correspondence run (BAD-ORACLE)',
-    'settings are not changed between the calls of a run in the run-level theorems (Cfg is fixed); the per-call '
-    'correspondence also covers runs with mid-stream ctl changes',
+    'oracle contract OpusModel.Dtx.oracleOk = shapeOk && coherentOk. shapeOk (main silk_Encode call has prefillFlag 0 and 1..3 SILK '
+    'frames of <= 20 ms, at most one prefill call before it; st->mode set once the frame loop is reached) is monitored on every '
+    'call of the correspondence run (the driver answers BAD-ORACLE). coherentOk (an invalid call-level analysis result on '
+    'non-silent input implies invalid per-frame results) is assumed by in_dtx_on_dtx_packets, dtx_run_bound, dtx_resume_silk and '
+    'dtx_detector_switch_no_dtx; the real encoder violates it on rare calls (a multi-frame packet in which the first valid '
+    'analysis result appears after the first coded frame: about 1 call in 100 000, counted as incoherent_valid); on those calls '
+    'the per-call correspondence and the witness search are the only guard',
+    'inner-encoder contract NoBust (the coded payload fits the frame budget) in dtx_off_no_tiny, dtx_resume and dtx_onset: an explicit '
+    'hypothesis, recorded as an oracle per call; violated by the real SILK encoder on tight buffers with FEC (known finding '
+    'C20-silk-bust-2byte)',
+    'settings are not changed between the calls of a run in the run-level theorems (Cfg is fixed; dtx_run_bound and '
+    'dtx_detector_switch_no_dtx hold from ANY state, hence after any history of setting changes, for the calls that follow); the '
+    'per-call correspondence also covers runs with mid-stream ctl changes',
     'float build, DRED off (the configuration of the baseline build)']
 TRUSTED = ['harness/c20_dtx.c records the locals activity / is_silence / analysis_info->valid / to_celt of '
            'opus_encode_frame_native through the RESTORE_STACK macro (a no-op in this build) and wraps silk_Encode and '
@@ -67,6 +73,8 @@ def _harness(ctx, variant):
 
 def _tie(ctx, name, args):
     h = _harness(ctx, 'san')
+    if not os.path.exists(common.driver_path()):     # another owner is relinking the shared driver: rebuild and go on
+        common.lake_build(['opusmodel'])
     tr = common.run_tie(name, [h] + args, timeout=3000)
     # harness statistics -> distribution
     for n in list(tr.notes):
@@ -141,18 +149,9 @@ def classify(ctx, tie, mm):
                            'outside (400, 1200]' % (nb_pre, st[0]))
                 elif st[2] == '1' and not (10 < int(st[3]) <= 30):
                     why = 'silk_run_bound/silk_onset: frame dropped by SILK with noSpeechCounter %s -> %s outside (10, 30]' % (pre[3], st[3])
-            if why is None:
-                why = ('the call returned a DTX packet where the DTX skeleton (proved to satisfy onset / run bound / resume) '
-                       'returns a normal packet for the same pre-state and the encoder\'s own oracle values')
         elif (not tiny) and fm.get('len') in ('1', '2') and use_dtx and digsil and cx >= 7 and fs >= 16000 and not low_budget:
             why = ('dtx_onset: digital silence with the analysis running and the inactivity counter in (200 ms, 600 ms], yet the '
                    'call returned a normal packet (pre nb_no_activity_ms_Q1=%s)' % pre[0])
-        elif fi.get('st') and fm.get('st') and fi['st'] != fm['st'] and len(fi['st']) == 9 == len(fm['st']):
-            diff = [STATE_FIELDS[i] + ': impl %s model %s' % (fi['st'][i], fm['st'][i]) for i in range(9) if fi['st'][i] != fm['st'][i]]
-            cnt = [d for d in diff if d.startswith(('nb_no_activity', 'noSpeechCounter', 'silk_mode.useDTX'))]
-            if cnt:
-                why = ('the DTX counters after the call differ from the counter machines for which onset / run bound are '
-                       'proved (%s): the next DTX decisions are taken from a state the theorems do not cover' % '; '.join(cnt))
     if why is None:
         return None
     return {'suite': tie.name, 'input': inp, 'expected': model, 'observed': impl, 'why': why,
